@@ -66,6 +66,10 @@ def c09(ctx):
     # ... and the justification of the row[name] lookups in Ast::eval on every condition's column names having been validated
     gates.gate_eval(ctx)
     gates.join_more(ctx)
+    # ... and the compound-file layer panics on entry names holding \ : ! — the stream API must not let such a name through
+    from .rules import streams as _streams
+    ctx.rule("NAME-1", "streamname::is_valid refuses the characters a container entry name cannot hold and the code points the name packing itself produces")
+    _streams.name_reserved(ctx, "NAME-1")
     ctx.assume(EXT_ASSUME)
     return ctx.finish(explanation="panic-edge inventory over MIR of msi and msi_ffi, reachability from every exported function; "
                       "each site discharged by a guard rule, justified, or reported; sized allocations bounded (ALLOC-BOUND); every loop cycle consumes from a finite "
